@@ -252,3 +252,228 @@ pub fn run(rep: &mut Report, tier: &str) {
     });
     rep.require("perm.cases", (cases / 2) as u64);
 }
+
+// ------------------------------------------------------------------------------------------------
+// deep permutation: documents cut from the whole-specification corpus, same-kind siblings multiplied at every nesting level
+// (also below ordered elements), two renderings that differ only in the order of reorderable siblings
+
+use crate::refxml::{RefItem, RefNode};
+use autosar_data_specification::{ContentMode, ElementMultiplicity, ElementType};
+use std::str::FromStr;
+
+fn child_et(parent: ElementType, name: &str, version: AutosarVersion) -> Option<(ElementType, Vec<usize>)> {
+    let n = ElementName::from_str(name).ok()?;
+    parent.find_sub_element(n, version as u32)
+}
+
+/// make `n` differ from its original: suffix every SHORT-NAME in it; Err if it has no SHORT-NAME at all
+fn rename_all(n: &mut RefNode, suffix: &str, renamed: &mut usize) {
+    for item in n.items.iter_mut() {
+        if let RefItem::Elem(c) = item {
+            if c.name == "SHORT-NAME" {
+                if let Some(RefItem::Text(t, _, _)) = c.items.first_mut() {
+                    t.push_str(suffix);
+                    *renamed += 1;
+                }
+            } else {
+                rename_all(c, suffix, renamed);
+            }
+        }
+    }
+}
+
+/// multiply children that may occur any number of times (clone with renamed SHORT-NAMEs), at every level
+fn multiply(rng: &mut Rng, n: &mut RefNode, et: ElementType, version: AutosarVersion, counter: &mut usize, below_ordered: bool, stats: &mut (u64, u64)) {
+    let mode = et.content_mode();
+    if !matches!(mode, ContentMode::Sequence | ContentMode::Choice | ContentMode::Bag) {
+        return;
+    }
+    let ordered_here = et.is_ordered();
+    let mut out: Vec<RefItem> = Vec::new();
+    for item in std::mem::take(&mut n.items) {
+        let RefItem::Elem(mut c) = item else {
+            out.push(item);
+            continue;
+        };
+        let Some((cet, idx)) = child_et(et, &c.name, version) else {
+            out.push(RefItem::Elem(c));
+            continue;
+        };
+        multiply(rng, &mut c, cet, version, counter, below_ordered || ordered_here, stats);
+        // repeatable: multiplicity "any", or an alternative of a repeatable group (bag)
+        let any = et.get_sub_element_multiplicity(&idx) == Some(ElementMultiplicity::Any) || et.get_sub_element_container_mode(&idx) == ContentMode::Bag;
+        if any && c.name != "SHORT-NAME" && (rng.chance(1, 3) || ((below_ordered || ordered_here) && rng.chance(2, 3))) {
+            let copies = rng.range(1, 2);
+            let mut group = vec![c.clone()];
+            for _ in 0..copies {
+                let mut d = c.clone();
+                *counter += 1;
+                let mut renamed = 0;
+                rename_all(&mut d, &format!("_p{counter}"), &mut renamed);
+                if renamed > 0 {
+                    group.push(d);
+                }
+            }
+            if group.len() > 1 {
+                stats.0 += 1;
+                if below_ordered {
+                    stats.1 += 1;
+                }
+            }
+            out.extend(group.into_iter().map(RefItem::Elem));
+        } else {
+            out.push(RefItem::Elem(c));
+        }
+    }
+    n.items = out;
+}
+
+/// shuffle reorderable siblings: runs of the same kind where the parent is not ordered (all children in a bag)
+fn permute(rng: &mut Rng, n: &mut RefNode, et: ElementType, version: AutosarVersion) {
+    let mode = et.content_mode();
+    if !matches!(mode, ContentMode::Sequence | ContentMode::Choice | ContentMode::Bag) {
+        return;
+    }
+    for item in n.items.iter_mut() {
+        if let RefItem::Elem(c) = item {
+            if let Some((cet, _)) = child_et(et, &c.name, version) {
+                permute(rng, c, cet, version);
+            }
+        }
+    }
+    if et.is_ordered() {
+        return;
+    }
+    let mut i = 0;
+    while i < n.items.len() {
+        let name_i = match &n.items[i] {
+            RefItem::Elem(c) => c.name.clone(),
+            RefItem::Text(..) => {
+                i += 1;
+                continue;
+            }
+        };
+        let mut j = i + 1;
+        while j < n.items.len() && matches!(&n.items[j], RefItem::Elem(c) if c.name == name_i) {
+            j += 1;
+        }
+        if j - i > 1 {
+            rng.shuffle(&mut n.items[i..j]);
+        }
+        i = j;
+    }
+}
+
+/// does the subtree contain an element whose type is ordered (sorting must not permute its children, but must descend below it)
+fn has_ordered(n: &RefNode, et: ElementType, version: AutosarVersion) -> bool {
+    if et.is_ordered() && n.items.iter().any(|i| matches!(i, RefItem::Elem(c) if c.items.iter().any(|x| matches!(x, RefItem::Elem(_))))) {
+        return true;
+    }
+    n.items.iter().any(|i| match i {
+        RefItem::Elem(c) => child_et(et, &c.name, version).is_some_and(|(cet, _)| has_ordered(c, cet, version)),
+        RefItem::Text(..) => false,
+    })
+}
+
+static ORDERED_CHUNKS: std::sync::OnceLock<std::sync::Mutex<std::collections::HashMap<u32, std::sync::Arc<Vec<usize>>>>> = std::sync::OnceLock::new();
+
+/// indices of the package level chunks of a version that contain ordered elements with structured children
+fn ordered_chunks(version: AutosarVersion, seed: u64) -> std::sync::Arc<Vec<usize>> {
+    let map = ORDERED_CHUNKS.get_or_init(Default::default);
+    if let Some(v) = map.lock().unwrap().get(&(version as u32)) {
+        return v.clone();
+    }
+    let sd = crate::docgen::spec_doc(version, seed);
+    let et = crate::docgen::elements_type(version);
+    let list: Vec<usize> = sd.chunks.iter().enumerate().filter(|(_, c)| child_et(et, &c.name, version).is_some_and(|(cet, _)| has_ordered(c, cet, version))).map(|(i, _)| i).collect();
+    let arc = std::sync::Arc::new(list);
+    map.lock().unwrap().insert(version as u32, arc.clone());
+    arc
+}
+
+pub fn run_deep(rep: &mut Report, tier: &str) {
+    let cases = if tier == "thorough" { 20_000 } else { 1_200 };
+    let seed = rep.seed;
+    let shards = 32;
+    let per = cases / shards;
+    crate::report::run_shards(rep, shards, crate::report::cpu_count(), 64, |shard, sub| {
+        for j in 0..per {
+            let case = (shard * per + j) as u64;
+            let mut rng = Rng::derive(seed, "c14deep", case);
+            let version = crate::docgen::random_version(&mut rng);
+            let (mut doc, _) = if case % 2 == 0 {
+                crate::docgen::random_chunk_doc(&mut rng, seed, version, 3, false)
+            } else {
+                // a chunk with ordered elements inside
+                let oc = ordered_chunks(version, seed);
+                if oc.is_empty() {
+                    crate::docgen::random_chunk_doc(&mut rng, seed, version, 3, false)
+                } else {
+                    let sd = crate::docgen::spec_doc(version, seed);
+                    let c = sd.chunks[*rng.pick(&oc)].clone();
+                    (crate::docgen::chunk_doc(version, vec![c], "p"), 0)
+                }
+            };
+            let mut counter = 0;
+            let mut stats = (0u64, 0u64);
+            multiply(&mut rng, &mut doc.root, ElementType::ROOT, version, &mut counter, false, &mut stats);
+            if stats.0 == 0 {
+                sub.count("deep.discarded_nothing_multiplied", 1);
+                continue;
+            }
+            let mut doc_b = doc.clone();
+            permute(&mut rng, &mut doc_b.root, ElementType::ROOT, version);
+            let bytes_a = crate::refxml::render(&mut rng, crate::refxml::Style::plain(), &doc);
+            let bytes_b = crate::refxml::render(&mut rng, crate::refxml::Style::plain(), &doc_b);
+            if bytes_a == bytes_b {
+                sub.count("deep.discarded_same_order", 1);
+                continue;
+            }
+            let ma = AutosarModel::new();
+            let mb = AutosarModel::new();
+            let (Ok(_), Ok(_)) = (ma.load_buffer(&bytes_a, "a.arxml", true), mb.load_buffer(&bytes_b, "a.arxml", true)) else {
+                sub.count("deep.discarded_not_strictly_loadable", 1);
+                continue;
+            };
+            let replay = || J::obj().with("engine", J::s("c14deep")).with("seed", J::Int(seed as i64)).with("case", J::Int(case as i64)).with("document_a", J::s(String::from_utf8_lossy(&bytes_a[..bytes_a.len().min(30_000)]).to_string())).with("document_b", J::s(String::from_utf8_lossy(&bytes_b[..bytes_b.len().min(30_000)]).to_string()));
+            let ca = crate::histprops2::canon(&Tree::of_model(&ma), 0);
+            let cb = crate::histprops2::canon(&Tree::of_model(&mb), 0);
+            if ca != cb {
+                sub.inconclusive("deep: the two renderings do not have the same content (harness)");
+                continue;
+            }
+            if let Err(ab) = crate::panicmon::catch(|| {
+                ma.sort();
+                mb.sort();
+            }) {
+                sub.violation("sort/panics", &format!("C14:sort/panics:{}:deep", ab.signature()), &ab.describe(), replay());
+                continue;
+            }
+            let text_a = ma.root_element().serialize();
+            let text_b = mb.root_element().serialize();
+            sub.eval(Some(hash_str(&text_a) ^ case));
+            sub.count("deep.cases", 1);
+            sub.count("deep.sibling_groups_multiplied", stats.0);
+            sub.count("deep.sibling_groups_below_ordered_elements", stats.1);
+            let where_ = if stats.1 > 0 { "deep-with-groups-below-ordered-elements" } else { "deep" };
+            if text_a != text_b {
+                sub.violation(
+                    "sort/depends-on-initial-order",
+                    &format!("C14:sort/depends-on-initial-order:{where_}"),
+                    &format!("two documents that differ only in the order of reorderable siblings sort to different texts: {}", crate::histprops::first_diff(&text_a, &text_b)),
+                    replay(),
+                );
+            }
+            if crate::histprops2::canon(&Tree::of_model(&ma), 0) != ca {
+                sub.violation("sort/content-not-preserved", "C14:sort/content-not-preserved:deep", "the content changed", replay());
+            }
+            ma.sort();
+            let text_a2 = ma.root_element().serialize();
+            if text_a2 != text_a {
+                sub.violation("sort/not-idempotent", "C14:sort/not-idempotent:deep", &format!("sorting twice differs from sorting once: {}", crate::histprops::first_diff(&text_a, &text_a2)), replay());
+            }
+        }
+    });
+    rep.require("deep.cases", (cases / 3) as u64);
+    rep.require("deep.sibling_groups_below_ordered_elements", 20);
+}
